@@ -46,7 +46,7 @@ VARIANTS = [
     V("clean-once", ["C14"], C, "            try:\n                while True:\n                    self.knot_remove((knot,), tolerance)\n            except ValueError:\n                pass", "            try:\n                self.knot_remove((knot,), tolerance)\n            except ValueError:\n                pass", "UNTIL-REFUSED", "knot_clean", "one attempt per knot"),
     V("pair-open-closed", ["C11", "C10"], H, "            nodes0to1 = NodeSample.open_linspace(nptsinteg)\n            integrator = IntegratorArray.open_newton_cotes(nptsinteg)", "            nodes0to1 = NodeSample.open_linspace(nptsinteg)\n            integrator = IntegratorArray.closed_newton_cotes(nptsinteg)", "PAIR", "func2func", "open nodes with closed weights"),
     V("pair-size", ["C11", "C10"], H, "            integrator = IntegratorArray.open_newton_cotes(nptsinteg)", "            integrator = IntegratorArray.open_newton_cotes(nptsinteg - 1)", "PAIR", "func2func", "weights for one point less"),
-    V("registry-cheby-gauss", ["C10"], CA, "            \"chebyshev\": heavy.NodeSample.chebyshev,\n            \"gauss-legendre\": heavy.NodeSample.gauss_legendre,\n        }\n        array_functs = {\n            \"closed-newton-cotes\": heavy.IntegratorArray.closed_newton_cotes,\n            \"open-newton-cotes\": heavy.IntegratorArray.open_newton_cotes,\n            \"chebyshev\": heavy.IntegratorArray.chebyshev,\n            \"gauss-legendre\": heavy.IntegratorArray.gauss_legendre,\n        }\n        assert isinstance(curve, Curve)\n        if function is None:\n            function = lambda u: 1\n        if method is not None:\n            pass\n        elif isinstance(curve.knotvector[0], (int, Fraction)):\n            method = \"open-newton-cotes\"\n        else:\n            method = \"chebyshev\"\n        if nnodes is None:\n            nnodes = 1 + curve.degree\n        nodes_func = nodes_functs[method]\n        integ_array_func = array_functs[method]\n        nodes_0to1 = nodes_func(nnodes)\n        integ_array = integ_array_func(nnodes)\n        knots = curve.knotvector.knots\n        integrals = []\n        for start, end in zip(knots[:-1], knots[1:]):\n            nodes = tuple(start + (end - start) * node for node in nodes_0to1)\n            curve_vals = tuple(curve.eval(node) for node in nodes)\n            abscurve_vals", "            \"chebyshev\": heavy.NodeSample.gauss_legendre,\n            \"gauss-legendre\": heavy.NodeSample.gauss_legendre,\n        }\n        array_functs = {\n            \"closed-newton-cotes\": heavy.IntegratorArray.closed_newton_cotes,\n            \"open-newton-cotes\": heavy.IntegratorArray.open_newton_cotes,\n            \"chebyshev\": heavy.IntegratorArray.chebyshev,\n            \"gauss-legendre\": heavy.IntegratorArray.gauss_legendre,\n        }\n        assert isinstance(curve, Curve)\n        if function is None:\n            function = lambda u: 1\n        if method is not None:\n            pass\n        elif isinstance(curve.knotvector[0], (int, Fraction)):\n            method = \"open-newton-cotes\"\n        else:\n            method = \"chebyshev\"\n        if nnodes is None:\n            nnodes = 1 + curve.degree\n        nodes_func = nodes_functs[method]\n        integ_array_func = array_functs[method]\n        nodes_0to1 = nodes_func(nnodes)\n        integ_array = integ_array_func(nnodes)\n        knots = curve.knotvector.knots\n        integrals = []\n        for start, end in zip(knots[:-1], knots[1:]):\n            nodes = tuple(start + (end - start) * node for node in nodes_0to1)\n            curve_vals = tuple(curve.eval(node) for node in nodes)\n            abscurve_vals", "PAIR", "Integrate.density", "Chebyshev key mapped to Gauss nodes"),
+    V("registry-cheby-gauss", ["C10"], CA, "            \"chebyshev\": heavy.NodeSample.chebyshev,\n            \"gauss-legendre\": heavy.NodeSample.gauss_legendre,\n", "            \"chebyshev\": heavy.NodeSample.gauss_legendre,\n            \"gauss-legendre\": heavy.NodeSample.gauss_legendre,\n", "PAIR", "Integrate.density", "chebyshev weights at gauss nodes", near=246),
     V("integ-default-cheby", ["C16"], CA, "        elif isinstance(curve.knotvector[0], (int, Fraction)):\n            method = \"open-newton-cotes\"\n        else:\n            method = \"chebyshev\"\n        if nnodes is None:\n            nnodes = 1 + curve.degree\n        nodes_func = nodes_functs[method]\n        integ_array_func = array_functs[method]\n        nodes_0to1 = nodes_func(nnodes)\n        integ_array = integ_array_func(nnodes)\n        knots = curve.knotvector.knots\n        integrals = []\n        for start, end in zip(knots[:-1], knots[1:]):\n            nodes = tuple(start + (end - start) * node for node in nodes_0to1)\n            curve_vals = tuple(curve.eval(node) for node in nodes)\n            function_vals", "        elif isinstance(curve.knotvector[0], (int, Fraction)):\n            method = \"chebyshev\"\n        else:\n            method = \"chebyshev\"\n        if nnodes is None:\n            nnodes = 1 + curve.degree\n        nodes_func = nodes_functs[method]\n        integ_array_func = array_functs[method]\n        nodes_0to1 = nodes_func(nnodes)\n        integ_array = integ_array_func(nnodes)\n        knots = curve.knotvector.knots\n        integrals = []\n        for start, end in zip(knots[:-1], knots[1:]):\n            nodes = tuple(start + (end - start) * node for node in nodes_0to1)\n            curve_vals = tuple(curve.eval(node) for node in nodes)\n            function_vals", "E8", "Integrate.scalar", "default rule on exact knots is Chebyshev"),
     V("div-noguard", ["C08"], C, "            copied.ctrlpoints = [point / other for point in copied.ctrlpoints]\n            return copied\n        if self.knotvector.limits != other.knotvector.limits:\n            raise ValueError\n", "            copied.ctrlpoints = [point / other for point in copied.ctrlpoints]\n            return copied\n", "GATE-LIMITS", "__truediv__", "curve / curve without limits guard"),
     V("fit-rational-drop-nodes", ["C11", "C05"], C, "transmat, materror = lstsq(vectorb, weightsb, vectora, weightsa, nodes)", "transmat, materror = lstsq(vectorb, weightsb, vectora, weightsa)", "ARG-FLOW", "fit_curve", "rational fit drops the interpolation nodes"),
@@ -129,8 +129,9 @@ VARIANTS += [
     V("twin-rsub-neg", ["C08"], C, "    def __rsub__(self, other: object):\n        return other + (-self)", "    def __rsub__(self, other: object):\n        return -(self - other)", None, None, "x - A as -(A - x)", twin=True),
     V("twin-ikv-or-both-ways", ["C17"], H, "        other = ImmutableKnotVector(other)\n        if self.limits != other.limits:\n            raise ValueError\n        all_knots = list(self.knots) + list(other.knots)", "        other = ImmutableKnotVector(other)\n        if not (self.valid(other.limits) and other.valid(self.limits)):\n            raise ValueError\n        all_knots = list(self.knots) + list(other.knots)", None, None, "containment both ways is equality of the intervals", twin=True),
     V("ikv-and-contain", ["C17"], H, "    def __and__(self, other: ImmutableKnotVector) -> ImmutableKnotVector:\n        other = ImmutableKnotVector(other)\n        if self.limits != other.limits:", "    def __and__(self, other: ImmutableKnotVector) -> ImmutableKnotVector:\n        other = ImmutableKnotVector(other)\n        if not other.valid(self.limits):", "SAME-INTERVAL", "__and__", "one-sided containment"),
-    V("scalar-default-closed", ["C10"], CA, "        elif isinstance(curve.knotvector[0], (int, Fraction)):\n            method = \"open-newton-cotes\"\n        else:\n            method = \"chebyshev\"\n        if nnodes is None:\n            nnodes = 1 + curve.degree\n        nodes_func = nodes_functs[method]\n        integ_array_func = array_functs[method]\n        nodes_0to1 = nodes_func(nnodes)\n        integ_array = integ_array_func(nnodes)\n        knots = curve.knotvector.knots\n        integrals = []",
-      "        elif isinstance(curve.knotvector[0], (int, Fraction)):\n            method = \"closed-newton-cotes\"\n        else:\n            method = \"chebyshev\"\n        if nnodes is None:\n            nnodes = 2 + curve.degree\n        nodes_func = nodes_functs[method]\n        integ_array_func = array_functs[method]\n        nodes_0to1 = nodes_func(nnodes)\n        integ_array = integ_array_func(nnodes)\n        knots = curve.knotvector.knots\n        integrals = []", "DEFAULT-OPEN", "Integrate.scalar", "closed default rule", near=157),
+    V("twin-scalar-default-closed", ["C10"], CA, "            method = \"open-newton-cotes\"\n        else:\n            method = \"chebyshev\"\n        if nnodes is None:\n            nnodes = 1 + curve.degree\n", "            method = \"closed-newton-cotes\"\n        else:\n            method = \"chebyshev\"\n        if nnodes is None:\n            nnodes = max(2, 1 + curve.degree)\n", None, None, "closed default rule in Integrate.scalar — harmless since every span evaluates its own piece", twin=True, near=157),
+    V("function-default-closed", ["C10"], CA, "            method = \"open-newton-cotes\"\n        else:\n            method = \"chebyshev\"\n        if nnodes is None:\n            nnodes = 1 + knotvector.degree\n", "            method = \"closed-newton-cotes\"\n        else:\n            method = \"chebyshev\"\n        if nnodes is None:\n            nnodes = max(2, 1 + knotvector.degree)\n", "DEFAULT-OPEN", "Integrate.function", "closed default rule where the user integrand is evaluated at the span ends"),
+    V("rev-F31", ["C10"], CA, "        for piece in curve.split():  # Each piece is closed on its own span\n            start, end = piece.knotvector.limits\n            nodes = tuple(start + (end - start) * node for node in nodes_0to1)\n            curve_vals = tuple(piece.eval(node) for node in nodes)\n            function_vals", "        knots = curve.knotvector.knots\n        for start, end in zip(knots[:-1], knots[1:]):\n            nodes = tuple(start + (end - start) * node for node in nodes_0to1)\n            curve_vals = tuple(curve.eval(node) for node in nodes)\n            function_vals", "PIECEWISE-EVAL", "Integrate.scalar", "whole curve evaluated at the span ends"),
     V("weight-cast-each", ["C18"], K, "            listknots[i + 1] = listknots[i] + weight", "            listknots[i + 1] = listknots[i] + cls(weight)", "SIBLING-CAST", "GeneratorKnotVector.weight", "each weight converted to the class of the first"),
     V("twin-weight-zero", ["C18"], K, "        listknots = [cls(0) for i in range(1 + len(weights))]", "        zero = cls(0)\n        listknots = [zero] * (1 + len(weights))", None, None, "zero of the first weight's class built once", twin=True),
     V("twin-feval-inline", ["C02"], F, "        evaluator = self[:, self.degree]\n        return evaluator(nodes)", "        return self[:, self.degree](nodes)", None, None, "evaluator applied without a local name", twin=True),
@@ -188,6 +189,12 @@ VARIANTS += [
 
 VARIANTS += [
     V("rev-F29", ["C07"], C, "            newcurve.weights = newweights\n        newcurve.knot_clean([umaxleft])\n        return newcurve", "            newcurve.weights = newweights\n            return newcurve\n        newcurve.knot_clean([umaxleft])\n        return newcurve", "CLEAN-JUNCTION", "__or__", "rational join returned before knot_clean"),
+]
+
+
+VARIANTS += [
+    V("rev-F30", ["C16"], K, "        try:\n            float(other)  # A number shifts, a sequence of nodes is inserted\n        except TypeError:\n            return self.insert(other)\n        return self.shift(other)", "        try:\n            return self.shift(other)\n        except TypeError:\n            return self.insert(other)", "PROBE-OPERAND", "__iadd__", "shift used as the type probe"),
+    V("twin-iadd-iter", ["C16", "C03", "C04"], K, "        try:\n            float(other)  # A number shifts, a sequence of nodes is inserted\n        except TypeError:\n            return self.insert(other)\n        return self.shift(other)", "        try:\n            iter(other)\n        except TypeError:\n            return self.shift(other)\n        return self.insert(other)", None, None, "probe with iter(other)", twin=True),
 ]
 
 
